@@ -145,3 +145,65 @@ theorem setValue_obj_no_panic (m : List (String × V)) (segs : List Seg) (v : V)
     · exact setIn_obj_no_panic m segs _
 
 end Xp.C10
+
+namespace Xp.C10
+open V (lookup setKey eraseKey)
+
+theorem lookup_setKey_self' (k : String) (v : V) (l : List (String × V)) : lookup k (setKey k v l) = some v := by
+  induction l with
+  | nil => simp [setKey, lookup]
+  | cons x xs ih =>
+    obtain ⟨k', v'⟩ := x
+    unfold setKey
+    split
+    · simp [lookup]
+    · simp [lookup, *]
+
+/-- Reading back the path that was just written yields the written value. -/
+theorem getIn_setIn (segs : List Seg) : ∀ (it v r : V), segs ≠ [] → setIn it segs v = .ok r → getIn r segs = .ok v := by
+  induction segs with
+  | nil => intro it v r h; exact absurd rfl h
+  | cons s rest ih =>
+    intro it v r _ hset
+    cases s with
+    | field k =>
+      unfold setIn at hset
+      split at hset
+      · rename_i m
+        split at hset
+        · simp only [Except.ok.injEq] at hset
+          subst hset
+          simp [getIn, stepGet, lookup_setKey_self']
+        · rename_i nx rest'
+          split at hset
+          · rename_i c' hc
+            simp only [Except.ok.injEq] at hset
+            subst hset
+            have := ih _ v c' (by simp) hc
+            simp only [getIn, stepGet, lookup_setKey_self']
+            exact this
+          · cases hset
+      · cases hset
+    | index n =>
+      unfold setIn at hset
+      split at hset
+      · rename_i l
+        split at hset
+        · rename_i hlt
+          split at hset
+          · simp only [Except.ok.injEq] at hset
+            subst hset
+            simp [getIn, stepGet, hlt]
+          · rename_i nx rest'
+            split at hset
+            · rename_i c' hc
+              simp only [Except.ok.injEq] at hset
+              subst hset
+              have := ih _ v c' (by simp) hc
+              simp only [getIn, stepGet, List.getElem?_set_self hlt]
+              exact this
+            · cases hset
+        · cases hset
+      · cases hset
+
+end Xp.C10
